@@ -144,6 +144,12 @@ parseSegments:
 		return md, nil
 	}
 
+	// Damaged ICC profile (inconsistent chunk count, invalid or duplicated
+	// chunk number) already recorded while scanning
+	if _, iccErr := md.ICCProfileData(); iccErr != nil {
+		return md, nil
+	}
+
 	iccProfileData := bytes.Buffer{}
 	for i := range iccProfileChunks {
 		iccProfileData.Write(iccProfileChunks[i])
